@@ -117,9 +117,10 @@ def gen_singular(rng, i):
     return 'cubic', pts, 0.5, 'interior2'
 
 
-def gen_regular(rng):
+def gen_regular(rng, sc=None):
     kind = rng.choice(['line', 'quad', 'cubic', 'cubic', 'arc', 'arc'])
-    sc = 10 ** rng.uniform(-2, 3)
+    if sc is None:
+        sc = 10 ** rng.uniform(-2, 3)
     off = complex(rng.uniform(-20, 20), rng.uniform(-20, 20)) * sc
 
     def rnd():
@@ -150,6 +151,43 @@ def detect_repaired():
     except Exception:
         return False
     return abs(u - complex(-1, 1) / math.sqrt(2)) < 1e-9
+
+
+def params_of(kind, seg):
+    if kind == 'arc':
+        return [complex(seg.start), complex(seg.radius), float(seg.rotation), bool(seg.large_arc),
+                bool(seg.sweep), complex(seg.end)]
+    return [complex(p) for p in seg.bpoints()]
+
+
+def gen_tiny(rng, i):
+    """regular points with a tiny but non-zero derivative: segments drawn at coordinate scales
+    1e-9..1e-6, scaled(1e-9) copies of ordinary segments (all kinds), and Beziers with a control
+    point 1e-12..1e-9 away from an end point (8 directions), evaluated at that end"""
+    which = ('tiny-scale', 'scaled-copy', 'near-end')[i % 3]
+    if which == 'tiny-scale':
+        kind, params, t, mode = gen_regular(rng, sc=10 ** rng.uniform(-9, -6))
+        return kind, params, t, 'tiny-scale/' + mode
+    if which == 'scaled-copy':
+        kind, params, t, mode = gen_regular(rng)
+        return kind, params_of(kind, build(kind, params).scaled(1e-9)), t, 'scaled-copy/' + mode
+    k = (i // 3) % 8
+    delta = cmath.exp(1j * (math.pi * k / 4 + rng.uniform(-0.3, 0.3))) * 10 ** rng.uniform(-12, -9)
+    r = rng.random()
+    p = 0j if r < 0.3 else dyc(rng, lo=-4, hi=4) if r < 0.7 else complex(rng.uniform(-50, 50), rng.uniform(-50, 50))
+    far = lambda: p + complex(rng.uniform(-3, 3), rng.uniform(-3, 3))
+    shape = rng.choice(['c1', 'c2', 'q-start', 'q-end'])
+    if shape == 'c1':
+        pts, t, kind = [p, p + delta, far(), far()], 0.0, 'cubic'
+    elif shape == 'c2':
+        pts, t, kind = [far(), far(), p - delta, p], 1.0, 'cubic'
+    elif shape == 'q-start':
+        pts, t, kind = [p, p + delta, far()], 0.0, 'quad'
+    else:
+        pts, t, kind = [far(), p - delta, p], 1.0, 'quad'
+    if len(set(pts)) < len(pts):      # delta was absorbed by rounding: a genuinely singular case
+        return gen_tiny(rng, i)
+    return kind, pts, t, 'near-end/' + shape
 
 
 def build(kind, params):
@@ -330,6 +368,31 @@ def float_zero_tests_wrong(seg, params, t):
     return False
 
 
+def conditioning(kind, params, t):
+    """sum of the magnitudes of the terms of derivative(t) divided by |derivative(t)|: the factor by
+    which binary64 rounding (relative 2^-53 per term; the differences P[i+1]-P[i] are correctly
+    rounded) is amplified in the direction of the derivative.  1 for lines/arcs and wherever no
+    cancellation happens (in particular at the end points, however small the derivative is)."""
+    if kind in ('line', 'arc'):
+        return 1.0
+    P = [cF(p) for p in params]
+    n = len(P) - 1
+    tt = Fraction(t)
+    d = bez_deriv_exact(params, t, 1)
+    dn = math.sqrt(float(d[0] * d[0] + d[1] * d[1]))
+    if dn == 0:
+        m = max(abs(d[0]), abs(d[1]))
+        dn = float(m) if m else 0.0
+    tot = 0.0
+    for i in range(n):
+        w = n * math.comb(n - 1, i) * abs(float((1 - tt) ** (n - 1 - i) * tt ** i))
+        dx, dyy = P[i + 1][0] - P[i][0], P[i + 1][1] - P[i][1]
+        m = max(abs(dx), abs(dyy))
+        if m:
+            tot += w * float(m) * math.hypot(float(dx / m), float(dyy / m))
+    return tot / dn if dn else float('inf')
+
+
 def scale_of(kind, params):
     if kind == 'arc':
         return max(abs(params[1].real), abs(params[1].imag), abs(params[5] - params[0]), 1e-300)
@@ -419,10 +482,16 @@ def check_impl(rep, kind, params, t, mode, o, stats):
               % (t, u2, u, w2[:1]), 'unit-tangent-singular-nan-numpy', {'got': str(u2), 'python_complex': str(u)})
         return False
 
-    if dnorm < 0.02 * sc:     # badly conditioned in binary64: not judged
+    # regular point, however small the derivative: the direction is judged against the exact
+    # derivative quotient with a tolerance that follows the conditioning of the binary64 evaluation
+    cond = conditioning(kind, params, t)
+    tol_u = TOL_REG + 64 * 2.0 ** -53 * cond
+    if tol_u > 1e-3:          # the cancellation leaves fewer than 3 digits of the direction
         stats['near_singular_skipped'] += 1
         return False
+    well = cond <= 50         # curvature / transforms / Path only where binary64 keeps ~1e-9
     stats['regular'] += 1
+    if dnorm <= 1e-8: stats['regular_tiny_derivative'] += 1
     ex = fdir(d)
     if stu != ST_VAL or stn != ST_VAL or stk != ST_VAL:
         V('unit_tangent/normal/curvature raises at a regular point (statuses %s)' % ((stu, stn, stk),),
@@ -431,14 +500,15 @@ def check_impl(rep, kind, params, t, mode, o, stats):
     u, nrm, kv = complex(u), complex(nrm), float(kv)
     if abs(abs(u) - 1) > TOL_REG:
         V('|unit_tangent| = %r != 1' % abs(u), 'unit-modulus')
-    if abs(u - ex) > TOL_REG:
-        V('unit_tangent = %r but derivative/|derivative| = %r' % (u, ex), 'unit-not-quotient')
+    if abs(u - ex) > tol_u:
+        V('unit_tangent = %r but derivative/|derivative| = %r (|derivative| = %r, tolerance %.1e)'
+          % (u, ex, dnorm, tol_u), 'unit-not-quotient')
     if abs(nrm - (-1j) * u) > 1e-12:
         V('normal = %r is not the unit tangent rotated by -90 degrees (%r)' % (nrm, -1j * u), 'normal-not-rot')
     if kind == 'line':
         if kv != 0:
             V('Line.curvature = %r != 0' % kv, 'line-curvature')
-    else:
+    elif well:
         ke = kappa_exact(d, dd)
         ddn = math.sqrt(float(dd[0] * dd[0] + dd[1] * dd[1]))
         tolk = TOL_REG * (ke + ddn / dnorm ** 2) + 1e-300
@@ -454,7 +524,7 @@ def check_impl(rep, kind, params, t, mode, o, stats):
         ch = complex(seg.point(b)) - complex(seg.point(a))
         if abs(ch) > 0 and abs(u - ch / abs(ch)) > 1e-4:
             V('Arc.unit_tangent = %r but the chord direction is %r' % (u, ch / abs(ch)), 'arc-tangent-direction')
-    return True
+    return well
 
 
 def check_transforms(rep, rng, kind, params, t, mode, o, stats):
@@ -469,7 +539,9 @@ def check_transforms(rep, rng, kind, params, t, mode, o, stats):
     tolk = 1e-7 * (abs(kv) + 1 / sc)
     trials = [('translated', lambda s: s.translated(z0), 1.0 + 0j, 1.0, t),
               ('rotated', lambda s: s.rotated(deg, origin=org), cmath.exp(1j * math.radians(deg)), 1.0, t),
-              ('scaled', lambda s: s.scaled(lam, origin=org), 1.0 + 0j, lam, t)]
+              ('scaled', lambda s: s.scaled(lam, origin=org), 1.0 + 0j, lam, t),
+              # a copy drawn in tiny units (about the origin: pure multiplication, well conditioned)
+              ('scaled-tiny', lambda s: s.scaled(1e-9), 1.0 + 0j, 1e-9, t)]
     for name, f, rot, scl, tt in trials:
         try:
             s2 = f(seg)
@@ -534,6 +606,12 @@ def path_obs(rep, rng, kind, params, t, mode, o, stats):
 def case_term(kind, params, t, o, pobs, singular=False, generic=False):
     seg = o['seg']
     (su, u, _), (sn, n, _), (sk, k, _) = o['ut'], o['nm'], o['k']
+    if not singular:
+        # the model is exact to ~1e-30, binary64 only to 2^-53 * conditioning: where cancellation eats
+        # the 1e-9 margin the value is judged at implementation level (conditioning-aware tolerance)
+        cond = conditioning(kind, params, t)
+        if 64 * 2.0 ** -53 * cond > 1e-10: su = sn = ST_SKIP
+        if cond > 50: sk = ST_SKIP
     # curvature at a zero of the derivative is outside the property ("at regular points"); its
     # fallback works with degree-12 polynomials whose binary64 coefficients are rounded, so the
     # exact zero tests agree with the model only at t0 = 0 (Horner returns the last coefficient) and
@@ -557,7 +635,7 @@ def run(rep, tier, seed, replay=None):
         repaired = detect_repaired()
         rep.cov['variant'] = ('repaired fallback (direction of the first non-vanishing derivative): model flag true'
                               if repaired else 'pinned fallback (rational_limit + principal sqrt): model flag false')
-        n_reg, n_sing = (420, 144) if tier == 'quick' else (4200, 1440)
+        n_reg, n_sing, n_tiny = (420, 144, 192) if tier == 'quick' else (4200, 1440, 1920)
         if info['agree_failed']:
             n_reg *= 4
         todo = []
@@ -574,7 +652,10 @@ def run(rep, tier, seed, replay=None):
                 todo.append(gen_singular(rng, i))
             for i in range(n_reg):
                 todo.append(gen_regular(rng))
-        stats = {k: 0 for k in ('singular', 'singular_ok', 'degenerate', 'regular', 'near_singular_skipped',
+            for i in range(n_tiny):
+                todo.append(gen_tiny(rng, i))
+        stats = {k: 0 for k in ('singular', 'singular_ok', 'degenerate', 'regular', 'regular_tiny_derivative',
+                                'near_singular_skipped',
                                 'transform_checks', 'transform_raised', 'path_checks', 'coq_skipped_generic_t1')}
         cases, meta, modes, kinds = [], [], {}, {}
         nontrivial = set()
@@ -590,7 +671,9 @@ def run(rep, tier, seed, replay=None):
             try:
                 regular = check_impl(rep, kind, params, t, mode, o, stats)
                 pobs = (False, 1.0, 0.0)
-                if regular:
+                # near-end cases: a transform's own rounding moves a control point that sits 1e-12 from
+                # its neighbour, which is not the tangent code's doing: no transform checks there
+                if regular and not mode.startswith('near-end'):
                     check_transforms(rep, rng, kind, params, t, mode, o, stats)
                     pobs = path_obs(rep, rng, kind, params, t, mode, o, stats)
             except Exception as e:
@@ -633,9 +716,10 @@ def run(rep, tier, seed, replay=None):
         rep.cov['rule'] = ('cases = (segment, t); singular cases: Beziers with P0=P1 / P2=P3 / three coincident points / '
                            'interior double zero heading into each of the 8 directions k*45deg (2/3 exact dyadic, 1/3 generic '
                            'doubles); regular cases: random Line/Quadratic/Cubic/Arc (40% circles), scale 1e-2..1e3, offset up to '
-                           '20x; distinct (segment, t) pairs counted; each case: 3 observations compared inside Coq with the model '
+                           '20x; tiny-derivative regular cases: segments at scale 1e-9..1e-6, scaled(1e-9) copies (all kinds), Beziers with a '
+                           'control point 1e-12..1e-9 from an end point in 8 directions; distinct (segment, t) pairs counted; each case: 3 observations compared inside Coq with the model '
                            'in 120-bit floats (1e-9), the property on the implementation (modulus, quotient at t / t+-1e-6 with '
-                           'sign, normal, curvature formula, circle 1/r), 4 transforms, Path wrappers')
+                           'sign, normal, curvature formula, circle 1/r), 5 transforms incl. scaled(1e-9), Path wrappers')
         rep.cov['input_distribution'] = {'kinds': kinds, 'modes': modes, 'stats': stats}
         rep.cov['samples'] = [{'segment': str(m[4]['seg']), 't': m[2], 'unit_tangent': str(m[4]['ut'][1]),
                                'curvature': str(m[4]['k'][1])} for m in meta[:3]]
@@ -655,4 +739,6 @@ def run(rep, tier, seed, replay=None):
     rep.assumptions += ['120-bit float execution of the model (Base/BigF.v) is accurate to far better than 1e-9 (unverified enclosure)',
                         'numpy poly1d arithmetic (polymul/polyadd/polyder/polyval) is the textbook one (oracle, sampled)',
                         'Arc.derivative is the derivative of Arc.point (property C04); Path.T2t (property C05)',
-                        'binary64 rounding: regular points with |d| < 0.02*size are not judged']
+                        'binary64 rounding: the tangent direction at a regular point is judged with tolerance 1e-9 + 64*2^-53*cond '
+                        '(cond = sum|terms of derivative(t)|/|derivative(t)|) however small the derivative; not judged only when that exceeds 1e-3; '
+                        'curvature/transform/Path checks where cond <= 50']
